@@ -433,6 +433,11 @@ func (fr *tsFrame) stepAssign(n ast.Node, st tsState) tsState {
 					v = nnNil
 				} else if u, ok := ast.Unparen(as.Rhs[i]).(*ast.UnaryExpr); ok && u.Op == token.AND {
 					v = nnNonNil
+				} else if ro := objOf(fr.info, as.Rhs[i]); ro != nil && isErrorType(ro.Type()) {
+					// a copy of another error variable / field carries its fact
+					if f, known := st.errs[ro]; known {
+						v = f
+					}
 				} else if call, ok := ast.Unparen(as.Rhs[i]).(*ast.CallExpr); ok && fr.cfg.p.errWrapper(callee(fr.info, call)) {
 					// wrapErr(err)-style converter: non-nil for a non-nil argument
 					for _, a := range call.Args {
